@@ -26,12 +26,18 @@ Definition rput (s : store) (alpha : bool) (e : Z) (p v : bytes) : outcome store
   (* key[0] = 'r'; key = append(key, ToBytes(cnt)...) *)
   sput (rep_val_pfx :: id ++ int_to_bytes cnt') v s1.
 
-(** [GetByID], [Get], [ListByEpoch] *)
+(** [GetByID], [Get], [ListByEpoch]: first the result of the prefix scan, then
+    the calls (a scan prefix longer than 64 bytes faults, see StoreLib). *)
 Definition rget_by_id (s : store) (id : bytes) : list bytes :=
   map snd (sfind (rep_val_pfx :: id) s).
 Definition rget (s : store) (e : Z) (p : bytes) : list bytes := rget_by_id s (rep_id e p).
 Definition rlist (s : store) (e : Z) : list bytes :=
   map (fun kv => drop 1 (fst kv)) (sfind (rep_cnt_pfx :: int_to_bytes e) s).
+
+Definition rget_by_id_call (s : store) (id : bytes) : outcome (list bytes) :=
+  with_key (rep_val_pfx :: id) (rget_by_id s id).
+Definition rget_call (s : store) (e : Z) (p : bytes) : outcome (list bytes) :=
+  rget_by_id_call s (rep_id e p).
 
 Definition rexec (s : store) (o : rop) : outcome store :=
   match o with RPut alpha e p v => rput s alpha e p v end.
@@ -57,12 +63,14 @@ Definition rlog (ops : list rop) := rlog_from ∅ ops.
 
 (** Observables of the correspondence check: after every op, for the
     history's pools of epochs and peers, every listing and getter. *)
+Definition out_list (o : outcome (list bytes)) : val :=
+  match o with Halt l => VBytesList l | Fault => VFault end.
 Definition robserve (q : list Z * list bytes) (s : store) (r : val) : val :=
   let '(es, ps) := q in
   VList [ r;
           VList (map (fun e => VBytesList (rlist s e)) es);
-          VList (map (fun e => VList (map (fun p => VBytesList (rget s e p)) ps)) es);
-          VList (map (fun id => VBytesList (rget_by_id s id)) (rlist s 0)) ].
+          VList (map (fun e => VList (map (fun p => out_list (rget_call s e p)) ps)) es);
+          VList (map (fun id => out_list (rget_by_id_call s id)) (rlist s 0)) ].
 
 Definition rstep_obs (q : list Z * list bytes) (s : store) (o : rop) : store * val :=
   let '(s', r) := rstep s o in (s', robserve q s' r).
